@@ -170,7 +170,7 @@ type({F_capsule_data_type}), intent(INOUT) :: ptr
     )
     
     ########################################
-    # Only used with std::vector and thus C++.
+    # Used with std::vector and with allocatable native results.
     name = "copy_array"
     fmt.hname = name
     if literalinclude:
@@ -183,7 +183,9 @@ type({F_capsule_data_type}), intent(INOUT) :: ptr
         cxx_include=["<cstring>"],
         # Create a single C routine which is called from Fortran
         # via an interface for each cxx_type.
-        cxx_source=wformat(
+        # Also needed by a C library: native pointer results with
+        # deref(allocatable) are copied with it.
+        source=wformat(
                 """
 {lstart}// helper {hname}
 // Copy std::vector into array c_var(c_var_size).
